@@ -158,6 +158,8 @@ fn get_text_edit_range_in_string(
     if text.ends_with('"') || text.ends_with('\'') {
         end_offset -= 1;
     }
+    // an unterminated string that is only its opening quote (`require "`) would give end < start
+    let end_offset = end_offset.max(start_offset);
 
     let new_text_range = TextRange::new(start_offset.into(), end_offset.into());
 
